@@ -100,7 +100,8 @@ pub fn random_event(rng: &mut StdRng) -> Value {
     let ex = world2::EX_OF[inst as usize] as i64;
     let cid = *USER_CIDS.choose(rng).unwrap();
     match rng.random_range(0..100) {
-        0..=11 => ev("Market", ex, inst, "", "", "-", 0, false, "-", vec![], no_filter()),
+        0..=8 => ev("Market", ex, inst, "", "", "-", 0, false, "-", vec![], no_filter()),
+        9..=11 => ev("MarketNoPrice", ex, inst, "", "", "-", 0, false, "-", vec![], no_filter()),
         12..=15 => ev("MarketReconnecting", rng.random_range(0..2), 0, "", "", "-", 0, false, "-", vec![], no_filter()),
         16..=19 => ev("AccountReconnecting", rng.random_range(0..2), 0, "", "", "-", 0, false, "-", vec![], no_filter()),
         20..=31 => ev("OrderSnap", ex, inst, if rng.random_range(0..8) == 0 { CLOSE_CID } else { cid }, if rng.random_bool(0.7) { "Open" } else { "Inactive" }, "-", 0, false, "-", vec![], no_filter()),
